@@ -189,7 +189,7 @@ def extract_ast(cfg='Q0', use_cache=True, log=None, raw=False):
             return m if raw else _normalise(m)
     t0 = time.time()
     units = unit_list(cfg)
-    tmp = os.path.join(cdir, 'ast')
+    tmp = os.path.join(cdir, 'ast.%d' % os.getpid())       # private to this process: checks may run concurrently
     os.makedirs(tmp, exist_ok=True)
     with ThreadPoolExecutor(max_workers=16) as ex:
         res = list(ex.map(_run_plugin, [(u, cfg, tmp) for u in units]))
@@ -229,8 +229,9 @@ def extract_ast(cfg='Q0', use_cache=True, log=None, raw=False):
     for k, f in merged['functions'].items():
         merged['fn_by_q'].setdefault(f['q'], []).append(k)
     merged['extract_s'] = round(time.time() - t0, 2)
-    with open(pk, 'wb') as fh:
+    with open(pk + '.%d' % os.getpid(), 'wb') as fh:
         pickle.dump(merged, fh, protocol=pickle.HIGHEST_PROTOCOL)
+    os.replace(pk + '.%d' % os.getpid(), pk)                # atomic: a concurrent reader sees the old state or the whole file
     _prune_cache()
     return merged if raw else _normalise(merged)
 
